@@ -2,9 +2,12 @@
    Property theorems only; proofs are in Proofs/StoreWF.v and Proofs/StoreCheckP.v.
    Model: Model/Store.v (state = tree with fiber identities + rank lists; operations =
    getPayloadRef with write-through, getPayload, append, __setitem__, clear, updateCoords,
-   updatePayloads, iterRangeShapeRef, getPosition(Ref), start_pos variants).
+   updatePayloads, iterRangeShapeRef, getPosition(Ref), start_pos variants, getPayload with a
+   caller default, and the fiber-valued mutators: append(c, fiber) / __setitem__(pos, fiber) on
+   interior fibers, extend(fiber) and fiber <<= fiber at any rank, the argument fiber being a
+   tree of the matching depth with strictly increasing coordinates).
    NOT in the modelled operation set (checked by other properties' models or not at all):
-   extend, in-place fiber arithmetic, fiber assignment (<<=), populate loops (C05). *)
+   in-place fiber arithmetic, populate loops (C05). *)
 From Coq Require Import ZArith List Bool Sorted.
 From FT Require Import Model.Base Model.Obs Model.Store Model.StoreCheck
                        Proofs.StoreWF Proofs.StoreCheckP.
